@@ -427,10 +427,14 @@ class Interp:
         t = s.target
         if isinstance(t, ast.Name):
             cur = st.env.get(t.id, UNKNOWN)
-            if cur.kind == "num" and cur.obj is None or cur.kind in ("str", "list", "tuple", "unknown", "bool"):
+            if cur.obj is None or cur.kind in ("str", "list", "tuple", "unknown", "bool"):
                 # rebinding semantics for immutables
                 res = self.binop(ast.BinOp(left=t, op=s.op, right=s.value), type(s.op), cur, rhs, st, s)
                 res = self._ctrl(res, st)
+                if self.domains:
+                    res = res.with_()
+                    for d in self.domains:
+                        d.on_aug(self, op, cur, rhs, res, st)
                 self.emit("assign", s, st, name=t.id, val=res, op=op, rhs=rhs, prev=cur)
                 st.env[t.id] = res
                 return st
@@ -439,9 +443,13 @@ class Interp:
             return st
         if isinstance(t, ast.Attribute) and isinstance(t.value, ast.Name) and t.value.id == "self":
             cur = st.attrs.get(t.attr, UNKNOWN)
-            if cur.kind in ("num", "str", "list", "tuple", "unknown", "bool") and cur.obj is None:
+            if cur.obj is None:
                 res = self.binop(None, type(s.op), cur, rhs, st, s)
                 res = self._ctrl(res, st)
+                if self.domains:
+                    res = res.with_()
+                    for d in self.domains:
+                        d.on_aug(self, op, cur, rhs, res, st)
                 self.emit("attr_store", s, st, attr=t.attr, val=res, op=op, prev=cur)
                 st.attrs[t.attr] = res
                 return st
@@ -890,7 +898,7 @@ class Interp:
                 continue
             if isinstance(n, ast.AugAssign) and isinstance(n.target, ast.Name) and isinstance(n.op, ast.Add):
                 cur = st.env.get(n.target.id)
-                if cur is not None and cur.kind == "num" and cur.sym is not None and cur.obj is None:
+                if cur is not None and cur.kind == "num" and cur.sym is not None and cur.obj is None and (cur.sym.is_Integer or (cur.sym.is_integer and not cur.sym.is_Float)):
                     out.setdefault(n.target.id, []).append(n)
         return out
 
@@ -1007,8 +1015,12 @@ class Interp:
                     dep |= self.eval(ch, st).dep
             return Val("unknown", dep=dep)
         v = m(n, st)
-        for d in self.domains:
-            d.on_expr(self, n, v, st)
+        if self.domains:
+            # domain values are attached to a private copy: values returned by
+            # reference (names, tuple items, attributes) are never mutated
+            v = v.with_()
+            for d in self.domains:
+                d.on_expr(self, n, v, st)
         return v
 
     def ex_Constant(self, n, st):
@@ -1815,6 +1827,7 @@ class Run:
         self.warnings = interp.warnings
         self.cmp_info = dict(interp.cmp_info)
         self.join_mode = False
+        self.domains = {d.name: d for d in interp.domains}
 
     def compatible(self, other_sigma):
         for k, v in self.sigma.items():
